@@ -267,14 +267,19 @@ class SQLiteAlterTableSQLResult(AlterTableSQLResult):
 
         # Step 5: Restore any indexes.
         #
-        # Any index explicitly requested by another operation batched into
-        # this rebuild must be reflected in the fields we're restoring
-        # indexes for. Those operations worked with their own copy of the
-        # field.
+        # Any index explicitly requested (or dropped) by another operation
+        # batched into this rebuild must be reflected in the fields we're
+        # restoring indexes for. Those operations worked with their own copy
+        # of the field.
         for field in added_field_db_indexes:
             for new_field in new_fields:
                 if new_field.column == field.column:
                     new_field.db_index = True
+
+        for field in dropped_field_db_indexes:
+            for new_field in new_fields:
+                if new_field.column == field.column:
+                    new_field.db_index = False
 
         class _Model(object):
             class _meta(object):
